@@ -542,6 +542,17 @@ impl<'a, 'tcx> Cx<'a, 'tcx> {
                 v.push(("static", J::s(&tcx.def_path_str(sdid))));
             }
         }
+        if let ty::Ref(_, inner, _) = ty.kind() {
+            if inner.is_str() {
+                if let Ok(val) = c.const_.eval(tcx, self.env, rustc_span::DUMMY_SP) {
+                    if let Some(bytes) = val.try_get_slice_bytes_for_diagnostics(tcx) {
+                        if let Ok(st) = std::str::from_utf8(bytes) {
+                            v.push(("str", J::s(st)));
+                        }
+                    }
+                }
+            }
+        }
         match ty.kind() {
             ty::Bool | ty::Int(_) | ty::Uint(_) | ty::Char => {
                 if let Some(si) = c.const_.try_eval_scalar_int(tcx, self.env) {
